@@ -5,6 +5,7 @@
      j a1 a2 ..     -> <join [a1;a2;..]>
      s x            -> notstr | ok w1 w2 .. | err | panic              (split)
      qs a1 a2 ..    -> <join> | <split (join ..)>                      (both, separated by " | ")
+     aqs a          -> <quote a> | <split (quote a)>                   (Arg::quote, the method)
      e a            -> <stfu8 encode a>
      d x            -> notstr | ok <bytes> | err                       (stfu8 decode of a &str)
      l a            -> <bytes of to_string_lossy a>
@@ -34,6 +35,8 @@ let c17_cmd cmd args =
   | "s", [x] -> Some (show_sres (split (bytes_of_field x)))
   | "qs", l -> let j = join (List.map bytes_of_field l) in
     Some (field_of_bytes j ^ " | " ^ show_sres (split j))
+  | "aqs", [a] -> let q = quote (bytes_of_field a) in
+    Some (field_of_bytes q ^ " | " ^ show_sres (split q))
   | "e", [a] -> Some (field_of_bytes (stfu8_encode (bytes_of_field a)))
   | "d", [x] -> Some (show_dec (bytes_of_field x))
   | "l", [a] -> Some (field_of_bytes (List.concat (lossy (bytes_of_field a))))
